@@ -35,6 +35,116 @@ class Infra(Exception):
     pass
 
 
+# --------------------------------------------------------------------------------------------- line coverage of the real side
+class LineCov(object):
+    """Which lines of REPO/productmd/*.py the real side of this run executed (in this process), via sys.monitoring
+    (each location reports once, then disables itself: negligible cost).  Reported in the evidence so that the part of
+    the library the correspondence never entered - code the model is not validated against - is visible per run."""
+    TOOL = 3
+
+    def __init__(self):
+        self.hits = set()
+        self.on = False
+        self.prefix = os.path.join(os.path.realpath(REPO), "productmd") + os.sep
+
+    def start(self):
+        mon = getattr(sys, "monitoring", None)
+        if mon is None:
+            return
+        try:
+            mon.use_tool_id(self.TOOL, "verif-linecov")
+        except ValueError:
+            return
+        prefix, hits = self.prefix, self.hits
+        cache = {}
+
+        def on_line(code, line):
+            fn = code.co_filename
+            ok = cache.get(fn)
+            if ok is None:
+                ok = cache[fn] = os.path.realpath(fn).startswith(prefix)
+            if ok:
+                hits.add((os.path.basename(fn), line))
+            return mon.DISABLE
+        mon.register_callback(self.TOOL, mon.events.LINE, on_line)
+        mon.set_events(self.TOOL, mon.events.LINE)
+        self.on = True
+
+    def stop(self):
+        if self.on:
+            mon = sys.monitoring
+            mon.set_events(self.TOOL, 0)
+            mon.register_callback(self.TOOL, mon.events.LINE, None)
+            mon.free_tool_id(self.TOOL)
+            self.on = False
+
+    @staticmethod
+    def _functions(path):
+        """[(qualname, first line, set of body lines)] of every function in the file; generator expressions and lambdas
+        count towards the enclosing function; class bodies and module level (executed at import) are left out"""
+        import types
+        out = []
+        try:
+            top = compile(open(path).read(), path, "exec", dont_inherit=True)
+        except Exception:
+            return out
+
+        def walk(code, owner):
+            is_fn = bool(code.co_flags & 0x1)          # CO_OPTIMIZED: a function body, not a class body / module
+            anonymous = code.co_name in ("<genexpr>", "<lambda>", "<listcomp>", "<setcomp>", "<dictcomp>")
+            if is_fn and not (anonymous and owner is not None):
+                owner = (code.co_qualname, code.co_firstlineno, set())
+                out.append(owner)
+            if is_fn and owner is not None:
+                owner[2].update(l for (_, _, l) in code.co_lines() if l is not None and l != code.co_firstlineno)
+            for c in code.co_consts:
+                if isinstance(c, types.CodeType):
+                    walk(c, owner if is_fn else None)
+        walk(top, None)
+        return out
+
+    def report(self):
+        if not self.hits and not self.on:
+            return None
+        files, unentered, tot_e, tot_x = {}, [], 0, 0
+        for path in sorted(glob.glob(self.prefix + "*.py")):
+            base = os.path.basename(path)
+            hit = set(l for (f, l) in self.hits if f == base)
+            ex, got, missing, per_file_unentered, allhit = 0, 0, [], [], []
+            for (qual, first, lines) in self._functions(path):
+                if not lines:
+                    continue
+                ex += len(lines)
+                h = lines & hit
+                got += len(h)
+                if not h:
+                    per_file_unentered.append("%s:%s" % (base, qual))
+                else:
+                    missing.extend(sorted(lines - hit))
+                allhit.extend(h)
+            files[base] = {"function_lines": ex, "executed": got, "executed_lines": _ranges(allhit),
+                           "unexecuted_in_entered_functions": _ranges(missing)}
+            if got:                      # list unentered functions only for the files this property works in
+                unentered.extend(per_file_unentered)
+            tot_e += got
+            tot_x += ex
+        return {"scope": "lines inside function bodies of productmd/*.py executed in-process by the real side of THIS run "
+                         "(sys.monitoring; helper processes of C08/C19 not counted)",
+                "executed": tot_e, "function_lines": tot_x, "files": files, "functions_never_entered": unentered}
+
+
+def _ranges(ls):
+    out, ls = [], sorted(set(ls))
+    i = 0
+    while i < len(ls):
+        j = i
+        while j + 1 < len(ls) and ls[j + 1] == ls[j] + 1:
+            j += 1
+        out.append(str(ls[i]) if i == j else "%d-%d" % (ls[i], ls[j]))
+        i = j + 1
+    return out
+
+
 # --------------------------------------------------------------------------------------------- build
 class Lock(object):
     def __enter__(self):
@@ -374,6 +484,8 @@ def main_check(prop, argv):
 
 def _check(prop, tier, seed, t0):
     pid = prop.id
+    linecov = LineCov()
+    linecov.start()
     use_repo()
     known = load_known()
     broken = []           # list of dicts describing broken obligations / ties (not yet violations)
@@ -538,6 +650,10 @@ def _check(prop, tier, seed, t0):
         "assumptions": list(prop.assumptions),
         "wall_s": round(time.time() - t0, 2), "violations": violations,
     }
+    linecov.stop()
+    lc = linecov.report()
+    if lc is not None:
+        ev["coverage"]["real_code_lines"] = lc
     if ev["coverage"]["discharged"] < 1:
         # a run whose proof obligations did not build: keep the file schema-valid, say so explicitly
         ev["coverage"]["discharged_count"] = ev["coverage"].pop("discharged")
